@@ -4,6 +4,7 @@
 set -u
 export GOFLAGS=-mod=mod GOPROXY=off GOSUMDB=off GOTOOLCHAIN=local
 sd=$1; prop=$2
+if [ -n "$(git -C /repo status --porcelain)" ]; then echo "REFUSING: /repo has uncommitted changes (commit them first)"; exit 2; fi
 pkg=$(cat $sd/demo_pkg.txt | tr -d ' \n')
 wt=$(mktemp -d /tmp/seedwt.XXXX)
 git -C /repo worktree add -q --detach $wt HEAD || exit 2
